@@ -61,7 +61,7 @@ func ruleC07_1(c *Ctx) {
 	c.examined(len(ws))
 	incs := 0
 	for _, w := range ws {
-		encl := outermost(w.Fn)
+		encl := homeFn(w.Fn)
 		c.touch(encl)
 		name := "Msg.FragDoneNumber write in " + shortFn(encl)
 		switch {
@@ -174,7 +174,7 @@ func ruleC07_2(c *Ctx) {
 				return
 			}
 			n++
-			gs := guardsAt(st.Block())
+			gs := guardsOf(st)
 			c.check(guardHas(gs, isGuard), tag+": Msg."+fv.Name()+" written only when all fragments answered", c.at(in), "dominated by !(FragDoneNumber < len(Body))",
 				"the request's "+fv.Name()+" is written before all of its fragments have answered: with two nodes the client gets a reply built from the first answer only", withGuards(gs))
 		})
@@ -213,7 +213,7 @@ func ruleC07_3(c *Ctx) {
 			if !ok {
 				return
 			}
-			if guardHas(guardsAt(st.Block()), func(g Guard) bool { return g.If == guardIf && !g.Truth }) {
+			if guardHas(guardsOf(st), func(g Guard) bool { return g.If == guardIf && !g.Truth }) {
 				return // after completion
 			}
 			fv := fieldVar(fa.X.Type(), fa.Field)
@@ -335,7 +335,7 @@ func ruleC07_3(c *Ctx) {
 		typeF := p.Field(pkgCore, "Frag", "Type")
 		rspOk, _ := p.ConstInt(pkgCodec, "RspOk")
 		for _, w := range p.fieldWrites(okF) {
-			if outermost(w.Fn) != fn {
+			if homeFn(w.Fn) != fn {
 				continue
 			}
 			if bo, ok := w.Val.(*ssa.BinOp); ok && bo.Op == token.EQL {
@@ -386,6 +386,15 @@ func ruleC07_4(c *Ctx) {
 	body := p.Field(pkgCore, "Msg", "Body")
 	rspF := p.Field(pkgCore, "Frag", "Rsp")
 	rsp := p.Field(pkgCore, "Msg", "RspBody")
+	// the assembly may have been extracted into a helper of MGet: analyse the family member that iterates msg.Keys
+	for _, g := range p.family(fn) {
+		for _, sl := range rangeIndexLoops(g) {
+			if _, is := fieldLoad(sl.coll, keys); is {
+				fn = g
+			}
+		}
+	}
+	c.touch(fn)
 	em := c.emissions(fn, rsp)
 	sls := rangeIndexLoops(fn)
 	var outer, inner *sliceLoop
